@@ -79,6 +79,52 @@ def in_domain(src, tgt, v) -> bool:
     return True
 
 
+def representation_stream():
+    """the same values stored in different physical representations give the same cast results"""
+    import datetime as dt
+
+    import polars as pl
+    import pydiverse.transform as pdt
+    import sqlalchemy as sqa
+
+    diffs, n = [], 0
+    stamps = [dt.datetime(2000, 2, 29, 12, 30, 45, 500000), None, dt.datetime(1970, 1, 1, 0, 0, 0), dt.datetime(2021, 3, 4, 13, 14, 15, 123000)]
+    ints = [3, None, -7, 100]
+    floats = [1.5, None, -2.25, 0.0]
+    ref_df = pl.DataFrame({"k": [1, 2, 3, 4], "t": stamps, "i": ints, "f": floats}, schema={"k": pl.Int64, "t": pl.Datetime("us"), "i": pl.Int64, "f": pl.Float64})
+    eng = sqa.create_engine("sqlite://")
+    ref_df.write_database("c17repr", eng)
+    variants = {
+        "t": [pl.Datetime("ms"), pl.Datetime("ns"), pl.Datetime("us")],
+        "i": [pl.Int8, pl.Int16, pl.Int32, pl.UInt8 if False else pl.Int64],
+        "f": [pl.Float32, pl.Float64],
+    }
+    casts = {"t": [pdt.String(), pdt.Date(), pdt.Datetime()], "i": [pdt.String(), pdt.Float64(), pdt.Int64(), pdt.Bool()], "f": [pdt.Float64(), pdt.Int64()]}
+
+    def run_cast(tbl, col, target):
+        try:
+            out = tbl >> pdt.mutate(y=tbl[col].cast(target)) >> pdt.arrange(tbl.k) >> pdt.select(pdt.C.y) >> pdt.export(pdt.Polars())
+            return [P.encode_val(x) for x in out.get_column("y").to_list()]
+        except Exception as e:  # noqa: BLE001
+            return "error:" + type(e).__name__
+
+    for col, phys in variants.items():
+        for target in casts[col]:
+            ref = run_cast(pdt.Table(ref_df, name="r"), col, target)
+            sq = run_cast(pdt.Table("c17repr", pdt.SqlAlchemy(eng)), col, target)
+            n += 1
+            if isinstance(ref, list) and isinstance(sq, list) and col != "f" and not all(oracle.cell_eq(a, b, tol=1e-6) for a, b in zip(ref, sq)):
+                diffs.append(dict(kind="backends_differ", src=f"{col} (canonical frame)", tgt=str(target), polars=ref, sqlite=sq))
+            for ph in phys:
+                df = ref_df.with_columns(pl.col(col).cast(ph))
+                got = run_cast(pdt.Table(df, name="v"), col, target)
+                n += 1
+                same = isinstance(got, list) and isinstance(ref, list) and all(oracle.cell_eq(a, b, tol=1e-6) for a, b in zip(got, ref))
+                if not same and got != ref:
+                    diffs.append(dict(kind="cast_depends_on_physical_representation", src=f"{col}:{ph}", tgt=str(target), got=got, canonical=ref))
+    return diffs, n
+
+
 def run(tier: str, seed: int) -> int:
     v = Verdict(PROP, tier, seed)
     rng = random.Random(seed)
@@ -176,6 +222,10 @@ def run(tier: str, seed: int) -> int:
         # the real constructor deviates from the model is therefore a concrete failing input
         acc_viol = [dict(c, kind="acceptance_differs_from_documented_table") for c in corr if c["kind"] == "acceptance"]
         corr = [c for c in corr if c["kind"] != "acceptance"]
+    # ---- source frames in other physical representations: the result of a cast does not depend on how the Polars
+    #      frame stores the value (Datetime in ms / us / ns, sized ints and floats), and agrees with SQLite
+    repr_diffs, n_repr = representation_stream()
+    diffs += repr_diffs
     new = internal + diffs + acc_viol
     groups = {}
     for d in new:
@@ -195,7 +245,7 @@ def run(tier: str, seed: int) -> int:
         obligations=po["obligations"], discharged=po["discharged"],
         checker_cmd="cd lean && lake build Pdt.Props.C17 && lake env lean ../out/audit/Pdt_Props_C17.lean",
         trusted_base=common.TRUSTED_BASE, theorems=po["theorems"], axioms=po["audit"].get("axioms"), proof_ok=po["ok"],
-        programs=len(reqs) + len(samples), disagreements_checked=len(corr), evaluations=len(reqs) + n_eval,
+        programs=len(reqs) + len(samples), disagreements_checked=len(corr), evaluations=len(reqs) + n_eval + n_repr,
         distinct_nontrivial=n_acc,
         rule="acceptance: every (source, target) pair over the 29-type universe with column and constant sources against the real Cast "
              "constructor and the model (non-trivial = accepted pair); values: boundary values per accepted pair of the executable types on "
